@@ -21,9 +21,30 @@ def build_inputs(ctx, rnd):
     for c, b in zip(wf, first):
         if not ds.usable(ctx, c, b, L, ctx.stats.setdefault("inputs", {})):
             continue
-        if c.tname != "Stream":
-            faults += ds.size_faults(c, b, L, rnd, "quick")
-            faults += ds.value_faults(c, b, L, rnd, ctx.tier, limit=4)
+        # single faults in every kind of input, streams included (a fault in an earlier message of a stream: does decoding
+        # resume at the right byte of the next message?)
+        sf = ds.size_faults(c, b, L, rnd, "quick")
+        if c.tname == "Stream" and len(sf) > 12:
+            sf = rnd.sample(sf, 12)
+        faults += sf
+        faults += ds.value_faults(c, b, L, rnd, ctx.tier, limit=4)
+        # two faults at once: two different size fields (outer + inner region, authSize + commandSize, …), or a size and a value
+        import msggen as _mg
+        pos = _mg.size_field_positions(b, L)
+        vpos = _mg.value_field_positions(b, L)
+        for _ in range(2 if len(pos) >= 2 else 0):
+            (o1, w1, v1, p1), (o2, w2, v2, p2) = rnd.sample(pos, 2)
+            d = _mg.put(_mg.put(c.data, o1, w1, max(0, min((1 << (8 * w1)) - 1, v1 + rnd.choice([-2, -1, 1, 2, 5])))),
+                        o2, w2, max(0, min((1 << (8 * w2)) - 1, v2 + rnd.choice([-2, -1, 1, 2, 5]))))
+            if d != c.data:
+                faults.append(ds.Case(c.tname, c.cc, c.enc, d, "two_size_faults", None, {"fields": [p1, p2]}))
+        if pos and vpos:
+            o1, w1, v1, p1 = rnd.choice(pos)
+            o2, w2, p2, pn = rnd.choice(vpos)
+            bad = _mg.invalid_values(L, pn, rnd)
+            if bad and o1 != o2:
+                d = _mg.put(_mg.put(c.data, o1, w1, max(0, v1 - 1)), o2, w2, rnd.choice(bad))
+                faults.append(ds.Case(c.tname, c.cc, c.enc, d, "size_and_value_fault", None, {"fields": [p1, p2]}))
         n = len(c.data)
         for k in sorted(set(rnd.sample(range(n), min(n, 4)))) if n else []:
             faults.append(ds.Case(c.tname, c.cc, c.enc, c.data[:k], "truncated"))
@@ -72,7 +93,8 @@ def relation_violation(s, w):
         if wo.startswith("raised") and w[-1].split(" rem=")[0][len("R raised "):] == err and we == se:
             # the only problems warn mode cannot continue after: a command code without layouts, a selector without union member
             ty = next((f[5:] for f in err.split(" ") if f.startswith("type=")), "")
-            if err.startswith("ValueConstraintViolatedError") and (ty == "TPM_CC" or ty.startswith("TPMU_")):
+            pa = next((f[5:] for f in err.split(" ") if f.startswith("path=")), "")
+            if err.startswith("ValueConstraintViolatedError") and (pa == ".commandCode" or ty.startswith("TPMU_")):
                 return None
             return f"warn mode raises {err[:80]} itself instead of emitting it as a warning and continuing"
         if wo.startswith("crash") and we[:len(se)] == se[:len(we)]:
